@@ -98,3 +98,66 @@ def nullable_fields(prog):
         for fld in null_stores(f, 0):
             res.setdefault(rec, set()).add(fld)
     return res
+
+
+def node_ctor_wrappers(unit):
+    """names of the unit-local functions that hand back a freshly made list node: every return yields a local whose every
+    definition is a call of an item constructor (`*_item_new`) or of another such wrapper (item_new_with(obj) = item_new +
+    set_data)"""
+    cached = getattr(unit, "_node_ctor_wrappers", None)
+    if cached is not None:
+        return cached
+    out = set()
+    changed = True
+    while changed:
+        changed = False
+        for g in unit.functions.values():
+            if g.name in out or g.body is None or re.search(r"_item_new$", g.name):
+                continue
+            rets = [x for x in walk(g.body) if x.get("k") == "return"]
+            if not rets:
+                continue
+            ok = True
+            for r in rets:
+                v = X.strip(r["val"]) if r.get("val") is not None else None
+                if v is None:
+                    ok = False
+                    break
+                if v.get("k") == "call":
+                    cn = X.callee_name(v) or ""
+                    if not (re.search(r"_item_new$", cn) or cn in out):
+                        ok = False
+                        break
+                    continue
+                if v.get("k") != "ref" or v.get("rk") != "local":
+                    ok = False
+                    break
+                defs = []
+                for x in walk(g.body):
+                    if x.get("k") == "assign" and (X.strip(x["ch"][0]) or {}).get("d") == v["d"]:
+                        defs.append(x["ch"][1] if x.get("op") == "=" else None)
+                    if x.get("k") == "decl":
+                        defs += [dc["init"] for dc in x.get("decls", ()) if dc["d"] == v["d"] and dc.get("init") is not None]
+                if not defs:
+                    ok = False
+                    break
+                for d in defs:
+                    s = X.strip(d) if d is not None else None
+                    cn = X.callee_name(s) if s is not None and s.get("k") == "call" else None
+                    if cn is None or not (re.search(r"_item_new$", cn) or cn in out):
+                        ok = False
+                        break
+                if not ok:
+                    break
+            if ok:
+                out.add(g.name)
+                changed = True
+    try:
+        unit._node_ctor_wrappers = out
+    except Exception:
+        pass
+    return out
+
+
+def is_node_ctor(unit, name):
+    return bool(name) and (bool(re.search(r"_item_new$", name)) or name in node_ctor_wrappers(unit))
